@@ -74,6 +74,8 @@ type c05Host struct {
 	stsMatch    bool
 	tlsa        int
 	dane        int
+	// next-hop refusals (symbolic only in the permit-accounting harness of C11)
+	mailFail, rcptFail, dataFail bool
 }
 
 type c05Conn struct {
@@ -107,6 +109,8 @@ var c05 struct {
 	minMX                               module.MXLevel
 	allowOverride                       bool
 	dataEvents                          int
+	noObligation                        bool // C11 harness: permits only
+	hopFaults                           bool // next-hop MAIL/RCPT/DATA refusals are symbolic
 }
 
 func c05HostByName(n string) *c05Host {
@@ -121,7 +125,7 @@ func c05HostByName(n string) *c05Host {
 
 // ---- smtpconn.C (verified separately: C09) ----
 
-//verif:stub (*github.com/foxcpp/maddy/internal/smtpconn.C).Connect @harness_C05_policy
+//verif:stub (*github.com/foxcpp/maddy/internal/smtpconn.C).Connect @harness_C05_policy,harness_C11_remote,harness_C16_remote
 func stubC05Connect(c *smtpconn.C, ctx context.Context, endp config.Endpoint, starttls bool, tlsCfg *tls.Config) (bool, error) {
 	h := c05HostByName(endp.Host)
 	if h == nil {
@@ -136,7 +140,7 @@ func stubC05Connect(c *smtpconn.C, ctx context.Context, endp config.Endpoint, st
 	return false, nil
 }
 
-//verif:stub (*github.com/foxcpp/maddy/internal/smtpconn.C).Client @harness_C05_policy
+//verif:stub (*github.com/foxcpp/maddy/internal/smtpconn.C).Client @harness_C05_policy,harness_C11_remote,harness_C16_remote
 func stubC05Client(c *smtpconn.C) *smtp.Client {
 	if m := c05.conns[c]; m != nil {
 		return m.client
@@ -144,7 +148,7 @@ func stubC05Client(c *smtpconn.C) *smtp.Client {
 	return nil
 }
 
-//verif:stub (*github.com/foxcpp/maddy/internal/smtpconn.C).Close @harness_C05_policy
+//verif:stub (*github.com/foxcpp/maddy/internal/smtpconn.C).Close @harness_C05_policy,harness_C11_remote,harness_C16_remote
 func stubC05Close(c *smtpconn.C) error {
 	if c05.conns[c] == nil {
 		panic("runtime error: invalid memory address or nil pointer dereference (Close on a closed smtpconn.C)")
@@ -153,7 +157,7 @@ func stubC05Close(c *smtpconn.C) error {
 	return nil
 }
 
-//verif:stub (*github.com/foxcpp/maddy/internal/smtpconn.C).DirectClose @harness_C05_policy
+//verif:stub (*github.com/foxcpp/maddy/internal/smtpconn.C).DirectClose @harness_C05_policy,harness_C11_remote,harness_C16_remote
 func stubC05DirectClose(c *smtpconn.C) error {
 	if c05.conns[c] == nil {
 		panic("runtime error: invalid memory address or nil pointer dereference (DirectClose on a closed smtpconn.C)")
@@ -162,13 +166,13 @@ func stubC05DirectClose(c *smtpconn.C) error {
 	return nil
 }
 
-//verif:stub (*github.com/foxcpp/maddy/internal/smtpconn.C).LocalAddr @harness_C05_policy
+//verif:stub (*github.com/foxcpp/maddy/internal/smtpconn.C).LocalAddr @harness_C05_policy,harness_C11_remote,harness_C16_remote
 func stubC05LocalAddr(c *smtpconn.C) net.Addr { return nil }
 
-//verif:stub (*github.com/foxcpp/maddy/internal/smtpconn.C).RemoteAddr @harness_C05_policy
+//verif:stub (*github.com/foxcpp/maddy/internal/smtpconn.C).RemoteAddr @harness_C05_policy,harness_C11_remote,harness_C16_remote
 func stubC05RemoteAddr(c *smtpconn.C) net.Addr { return nil }
 
-//verif:stub (*github.com/foxcpp/maddy/internal/smtpconn.C).ServerName @harness_C05_policy
+//verif:stub (*github.com/foxcpp/maddy/internal/smtpconn.C).ServerName @harness_C05_policy,harness_C11_remote,harness_C16_remote
 func stubC05ServerName(c *smtpconn.C) string {
 	if m := c05.conns[c]; m != nil {
 		return m.host.name
@@ -176,7 +180,7 @@ func stubC05ServerName(c *smtpconn.C) string {
 	return ""
 }
 
-//verif:stub (*github.com/foxcpp/maddy/internal/smtpconn.C).Mail @harness_C05_policy
+//verif:stub (*github.com/foxcpp/maddy/internal/smtpconn.C).Mail @harness_C05_policy,harness_C11_remote,harness_C16_remote
 func stubC05Mail(c *smtpconn.C, ctx context.Context, from string, opts smtp.MailOptions) error {
 	m := c05.conns[c]
 	if m == nil {
@@ -185,22 +189,28 @@ func stubC05Mail(c *smtpconn.C, ctx context.Context, from string, opts smtp.Mail
 	if opts.RequireTLS && !m.host.reqtls {
 		return &exterrors.SMTPError{Code: 550, EnhancedCode: exterrors.EnhancedCode{5, 7, 30}, Message: "REQUIRETLS is not supported by the server"}
 	}
+	if m.host.mailFail {
+		return &exterrors.SMTPError{Code: 550, EnhancedCode: exterrors.EnhancedCode{5, 7, 1}, Message: "sender refused"}
+	}
 	m.mailOK = true
 	m.rcpts = nil
 	return nil
 }
 
-//verif:stub (*github.com/foxcpp/maddy/internal/smtpconn.C).Rcpt @harness_C05_policy
+//verif:stub (*github.com/foxcpp/maddy/internal/smtpconn.C).Rcpt @harness_C05_policy,harness_C11_remote,harness_C16_remote
 func stubC05Rcpt(c *smtpconn.C, ctx context.Context, to string, opts smtp.RcptOptions) error {
 	m := c05.conns[c]
 	if m == nil || !m.mailOK {
 		return errors.New("model: RCPT without MAIL")
 	}
+	if m.host.rcptFail {
+		return &exterrors.SMTPError{Code: 550, EnhancedCode: exterrors.EnhancedCode{5, 1, 1}, Message: "no such user"}
+	}
 	m.rcpts = append(m.rcpts, to)
 	return nil
 }
 
-//verif:stub (*github.com/foxcpp/maddy/internal/smtpconn.C).Rcpts @harness_C05_policy
+//verif:stub (*github.com/foxcpp/maddy/internal/smtpconn.C).Rcpts @harness_C05_policy,harness_C11_remote,harness_C16_remote
 func stubC05Rcpts(c *smtpconn.C) []string {
 	if m := c05.conns[c]; m != nil {
 		return m.rcpts
@@ -211,7 +221,7 @@ func stubC05Rcpts(c *smtpconn.C) []string {
 // Data is where message content leaves: the obligation of the property is
 // evaluated here, from world facts and the state of the modelled connection.
 //
-//verif:stub (*github.com/foxcpp/maddy/internal/smtpconn.C).Data @harness_C05_policy
+//verif:stub (*github.com/foxcpp/maddy/internal/smtpconn.C).Data @harness_C05_policy,harness_C11_remote,harness_C16_remote
 func stubC05Data(c *smtpconn.C, ctx context.Context, hdr textproto.Header, body io.Reader) error {
 	m := c05.conns[c]
 	if m == nil || !m.mailOK || len(m.rcpts) == 0 {
@@ -219,14 +229,19 @@ func stubC05Data(c *smtpconn.C, ctx context.Context, hdr textproto.Header, body 
 	}
 	m.datas++
 	c05.dataEvents++
-	c05Obligation(m)
+	if !c05.noObligation {
+		c05Obligation(m)
+	}
 	m.mailOK = false
+	if m.host.dataFail {
+		return &exterrors.SMTPError{Code: 451, EnhancedCode: exterrors.EnhancedCode{4, 3, 0}, Message: "try later"}
+	}
 	return nil
 }
 
 // ---- go-smtp client of a modelled connection ----
 
-//verif:stub (*github.com/emersion/go-smtp.Client).Extension @harness_C05_policy
+//verif:stub (*github.com/emersion/go-smtp.Client).Extension @harness_C05_policy,harness_C11_remote,harness_C16_remote
 func stubC05Extension(cl *smtp.Client, ext string) (bool, string) {
 	m := c05.clients[cl]
 	switch ext {
@@ -238,7 +253,7 @@ func stubC05Extension(cl *smtp.Client, ext string) (bool, string) {
 	return false, ""
 }
 
-//verif:stub (*github.com/emersion/go-smtp.Client).StartTLS @harness_C05_policy
+//verif:stub (*github.com/emersion/go-smtp.Client).StartTLS @harness_C05_policy,harness_C11_remote,harness_C16_remote
 func stubC05StartTLS(cl *smtp.Client, cfg *tls.Config) error {
 	m := c05.clients[cl]
 	if m.host.starttlsErr {
@@ -249,7 +264,7 @@ func stubC05StartTLS(cl *smtp.Client, cfg *tls.Config) error {
 	return nil
 }
 
-//verif:stub (*github.com/emersion/go-smtp.Client).Hello @harness_C05_policy
+//verif:stub (*github.com/emersion/go-smtp.Client).Hello @harness_C05_policy,harness_C11_remote,harness_C16_remote
 func stubC05Hello(cl *smtp.Client, name string) error {
 	m := c05.clients[cl]
 	if !m.pendTLS {
@@ -277,7 +292,7 @@ func stubC05Hello(cl *smtp.Client, name string) error {
 	return errors.New("tls: handshake failure")
 }
 
-//verif:stub (*github.com/emersion/go-smtp.Client).TLSConnectionState @harness_C05_policy
+//verif:stub (*github.com/emersion/go-smtp.Client).TLSConnectionState @harness_C05_policy,harness_C11_remote,harness_C16_remote
 func stubC05TLSState(cl *smtp.Client) (tls.ConnectionState, bool) {
 	m := c05.clients[cl]
 	if m.tlsState == 0 {
@@ -290,12 +305,12 @@ func stubC05TLSState(cl *smtp.Client) (tls.ConnectionState, bool) {
 	return st, true
 }
 
-//verif:stub (*github.com/emersion/go-smtp.Client).Reset @harness_C05_policy
+//verif:stub (*github.com/emersion/go-smtp.Client).Reset @harness_C05_policy,harness_C11_remote,harness_C16_remote
 func stubC05Reset(cl *smtp.Client) error { return nil }
 
 // ---- DNS (DNSSEC-aware resolver) ----
 
-//verif:stub (github.com/foxcpp/maddy/framework/dns.ExtResolver).AuthLookupMX @harness_C05_policy
+//verif:stub (github.com/foxcpp/maddy/framework/dns.ExtResolver).AuthLookupMX @harness_C05_policy,harness_C11_remote,harness_C16_remote
 func stubC05LookupMX(e dns.ExtResolver, ctx context.Context, name string) (bool, []*net.MX, error) {
 	d := c05DomByName(name)
 	if d.mxLookupFail {
@@ -318,7 +333,7 @@ func c05DomByName(n string) *c05Domain {
 	return nil
 }
 
-//verif:stub (github.com/foxcpp/maddy/framework/dns.ExtResolver).CheckCNAMEAD @harness_C05_policy
+//verif:stub (github.com/foxcpp/maddy/framework/dns.ExtResolver).CheckCNAMEAD @harness_C05_policy,harness_C11_remote,harness_C16_remote
 func stubC05CheckCNAMEAD(e dns.ExtResolver, ctx context.Context, host string) (bool, string, error) {
 	h := c05HostByName(host)
 	switch h.tlsa {
@@ -330,12 +345,12 @@ func stubC05CheckCNAMEAD(e dns.ExtResolver, ctx context.Context, host string) (b
 	return true, host, nil
 }
 
-//verif:stub (github.com/foxcpp/maddy/framework/dns.ExtResolver).AuthLookupCNAME @harness_C05_policy
+//verif:stub (github.com/foxcpp/maddy/framework/dns.ExtResolver).AuthLookupCNAME @harness_C05_policy,harness_C11_remote,harness_C16_remote
 func stubC05LookupCNAME(e dns.ExtResolver, ctx context.Context, host string) (bool, string, error) {
 	return false, "", nil
 }
 
-//verif:stub (github.com/foxcpp/maddy/framework/dns.ExtResolver).AuthLookupTLSA @harness_C05_policy
+//verif:stub (github.com/foxcpp/maddy/framework/dns.ExtResolver).AuthLookupTLSA @harness_C05_policy,harness_C11_remote,harness_C16_remote
 func stubC05LookupTLSA(e dns.ExtResolver, ctx context.Context, service, network, domain string) (bool, []dns.TLSA, error) {
 	h := c05HostByName(domain)
 	switch h.tlsa {
@@ -355,7 +370,7 @@ func stubC05LookupTLSA(e dns.ExtResolver, ctx context.Context, service, network,
 // and no TLS: refuse; all records unusable: no opinion; a usable record
 // matches: authenticated; usable records and none matches: refuse.
 //
-//verif:stub github.com/foxcpp/maddy/internal/target/remote.verifyDANE @harness_C05_policy
+//verif:stub github.com/foxcpp/maddy/internal/target/remote.verifyDANE @harness_C05_policy,harness_C11_remote,harness_C16_remote
 func stubC05VerifyDANE(recs []dns.TLSA, st tls.ConnectionState) (bool, error) {
 	if len(recs) == 0 {
 		return false, nil
@@ -454,22 +469,12 @@ func c05Obligation(m *c05Conn) {
 
 // ---------------------------------------------------------------------------
 
-func harness_C05_policy() {
-	nmx := verifParam("nmx", 1)
-	nmsg := verifParam("nmsg", 1)
-	pol := verifParam("policies", 15) // bit 0 mtasts, 1 dane, 2 dnssec, 3 local_policy
-	c05.enMTASTS, c05.enDANE, c05.enDNSSEC, c05.enLocal = pol&1 != 0, pol&2 != 0, pol&4 != 0, pol&8 != 0
-	c05.minTLS = module.TLSLevel(verifParam("mintls", 1))
-	c05.minMX = module.MXLevel(verifParam("minmx", 0))
-	c05.allowOverride = verifParam("override", 1) == 1
-	relaxed := verifParam("relaxed", 1) == 1
-	flags := verifParam("flags", 7) // which message flags are symbolic: 1 requireTLS, 2 override, 4 quarantine
-
+// c05World creates the symbolic facts about the recipient domains and their MX hosts.
+func c05World(nmx, ndom int) {
 	c05.conns = map[*smtpconn.C]*c05Conn{}
 	c05.clients = map[*smtp.Client]*c05Conn{}
 	c05.hosts = nil
 	c05.dataEvents = 0
-	ndom := verifParam("ndom", 1)
 	c05.doms = nil
 	for di := 0; di < ndom; di++ {
 		d := &c05Domain{name: []string{"example.org", "other.example"}[di]}
@@ -495,6 +500,11 @@ func harness_C05_policy() {
 			h.hs = nondetInt(p+"hs", 0, 2)
 			h.hsInsecure = nondetBool(p + "hsInsecure")
 			h.reqtls = nondetBool(p + "reqtls")
+			if c05.hopFaults {
+				h.mailFail = nondetBool(p + "mailFail")
+				h.rcptFail = nondetBool(p + "rcptFail")
+				h.dataFail = nondetBool(p + "dataFail")
+			}
 			if c05.enMTASTS {
 				h.stsMatch = nondetBool(p + "stsMatch")
 			}
@@ -510,6 +520,10 @@ func harness_C05_policy() {
 		c05.doms = append(c05.doms, d)
 	}
 
+}
+
+// c05Target assembles the remote target the way Init does, with the enabled policies.
+func c05Target(relaxed bool) *Target {
 	// the target, assembled as Init does
 	var policies []module.MXAuthPolicy
 	if c05.enMTASTS {
@@ -561,6 +575,29 @@ func harness_C05_policy() {
 			StaleKeyLifetimeSec: 300,
 		}),
 	}
+
+	return rt
+}
+
+func harness_C05_policy() {
+	nmx := verifParam("nmx", 1)
+	nmsg := verifParam("nmsg", 1)
+	pol := verifParam("policies", 15) // bit 0 mtasts, 1 dane, 2 dnssec, 3 local_policy
+	c05.enMTASTS, c05.enDANE, c05.enDNSSEC, c05.enLocal = pol&1 != 0, pol&2 != 0, pol&4 != 0, pol&8 != 0
+	c05.minTLS = module.TLSLevel(verifParam("mintls", 1))
+	c05.minMX = module.MXLevel(verifParam("minmx", 0))
+	c05.allowOverride = verifParam("override", 1) == 1
+	relaxed := verifParam("relaxed", 1) == 1
+	flags := verifParam("flags", 7) // which message flags are symbolic: 1 requireTLS, 2 override, 4 quarantine
+
+	c05.conns = map[*smtpconn.C]*c05Conn{}
+	c05.clients = map[*smtp.Client]*c05Conn{}
+	c05.hosts = nil
+	c05.dataEvents = 0
+	c05World(nmx, verifParam("ndom", 1))
+	ndom := len(c05.doms)
+
+	rt := c05Target(relaxed)
 
 	c05.msgs = nil
 	ctx := context.Background()
